@@ -33,7 +33,8 @@ CHECKS = {
              "(C11_batch_objects); the partial-name form has the glob meaning (C11_partial_name via C08_glob). re.match is a Section variable (oracle). "
              "Tie to /repo: compact rule vs expanded rule(s) both evaluated on the real code (metamorphic), all evaluations compared with the model.",
         note="Python re on user regexes is an oracle: its truth table over the graph's names is computed with the real re and handed to the model. "
-             "Trusted: Coq kernel, extraction, driver, harness.",
+             "Open known finding K3 (known_findings.json): for the two 'anything' aliases a regex that matches a module together with its own sub modules does not equal its expansion "
+             "(C11_regex_anything_refuted is the kernel-checked witness; the expansion theorems cover the 12 explicit shapes). Trusted: Coq kernel, extraction, driver, harness.",
         technique="Coq proof with regex oracle + metamorphic and model/implementation correspondence",
         design="5/C11"),
     "C12": dict(
